@@ -166,7 +166,7 @@ def sequences(tier):
     return seqs
 
 
-def build(seq, variant, hole_scope, hole_kind):
+def build(seq, variant, hole_scope, hole_kind, bare_parity=1):
     """variant 'meta': tags/links/properties everywhere; 'date': dates on title/headers, items without ZID.
     hole_scope: index of the decorated scope that gets the hole (rotates over the page's scopes)
     hole_kind: 'tag' (an area name from TAG_MENU) | 'link' | 'key' (a property key from KEY_MENU) | None"""
@@ -191,8 +191,9 @@ def build(seq, variant, hole_scope, hole_kind):
         own = "2024-07-%02d" % (10 + n) if (variant == "date" and n % 3 == 2) else None
         it = Line("item", deco("n%d" % n, None), text="note%d" % n, zid=zid, own_date=own)
         if variant == "date":
-            # every other note is a bare one-word note (exactly one id token), the rest carry one tag
-            it.deco = Deco(tags=[("areas", "n%da" % n)]) if n % 2 else Deco()
+            # every other note is a bare one-word note (exactly one id token), the rest carry one tag; bare_parity
+            # decides whether the bare ones sit right before the dated or before the undated headers
+            it.deco = Deco(tags=[("areas", "n%da" % n)]) if n % 2 != bare_parity else Deco()
         n += 1
         scopes.append(it)
         return it
@@ -228,7 +229,8 @@ def all_specs(tier, seed):
         name = "".join(map(str, seq)) or "none"
         for vi, variant in enumerate(("meta", "date")):
             hk = kinds[(si + seed) % 3] if variant == "meta" else "tag"
-            out.append(Spec("c02-%s-%s-%s" % (name, variant, hk), build(seq, variant, hole_scope=si + seed + vi, hole_kind=hk)))
+            out.append(Spec("c02-%s-%s-%s" % (name, variant, hk), build(seq, variant, hole_scope=si + seed + vi, hole_kind=hk,
+                                                                           bare_parity=1 if si % 3 else 0)))
     return out
 
 
